@@ -695,6 +695,9 @@ type LPlan struct {
 	N      int   `json:"n"`
 	FLatMs int   `json:"flat"`
 	Delays []int `json:"delays"`
+	// PanicFirst: the first run of f panics (every caller recovers). What callers then get differs between the
+	// two shipped implementations (re-panic / zero value) and is not judged; that f is not run again is.
+	PanicFirst bool `json:"panic_first,omitempty"`
 }
 
 func genL(t *rapid.T) LPlan {
@@ -702,6 +705,7 @@ func genL(t *rapid.T) LPlan {
 	for i := 0; i < p.N; i++ {
 		p.Delays = append(p.Delays, rapid.SampledFrom([]int{0, 0, 0, 1, 5, 20}).Draw(t, "delay"))
 	}
+	p.PanicFirst = rapid.IntRange(0, 3).Draw(t, "panicfirst") == 0
 	return p
 }
 
@@ -713,6 +717,9 @@ func runL(p LPlan) (vk.Outcome, error) {
 	lazy := xsync.Lazy(func() int {
 		n := runs.Add(1)
 		time.Sleep(time.Duration(p.FLatMs) * 20 * time.Microsecond)
+		if p.PanicFirst && n == 1 {
+			panic("f: first run fails")
+		}
 		return 1000 + int(n)
 	})
 	var wg sync.WaitGroup
@@ -726,13 +733,22 @@ func runL(p LPlan) (vk.Outcome, error) {
 			if p.Delays[i] > 0 {
 				time.Sleep(time.Duration(p.Delays[i]) * 10 * time.Microsecond)
 			}
-			res[i] = lazy()
+			catch2(func() { res[i] = lazy() })
 		}(i)
 	}
 	close(gate)
 	wg.Wait()
 	if runs.Load() != 1 {
-		return out, vk.Violf("lazy-runs", "f ran %d times for %d callers", runs.Load(), p.N)
+		return out, vk.Violf("lazy-runs", "f ran %d times for %d callers (its first run panicked: %v)", runs.Load(), p.N, p.PanicFirst)
+	}
+	if p.PanicFirst {
+		catch2(func() { lazy() })
+		if runs.Load() != 1 {
+			return out, vk.Violf("lazy-runs", "f's only run panicked; a later call ran it again (%d runs)", runs.Load())
+		}
+		out.Label("lazy-panicking-f")
+		out.NonTrivial = p.N >= 2
+		return out, nil
 	}
 	for i, r := range res {
 		if r != 1001 {
